@@ -8,6 +8,7 @@ mod c13;
 mod c14;
 mod c15;
 mod c19;
+mod extfut;
 mod cview;
 
 #[cfg(all(feature = "track-alloc", not(miri)))]
@@ -79,7 +80,7 @@ fn main() {
         }
     }));
     let mut rep = vmon::Report::new();
-    if !["c10", "c11", "c12", "c13", "c14", "c15", "c19"].contains(&a[1].as_str()) {
+    if !["c10", "c11", "c12", "c13", "c14", "c15", "c19", "extfut"].contains(&a[1].as_str()) {
         eprintln!("unknown property {}", a[1]);
         std::process::exit(64);
     }
@@ -93,6 +94,7 @@ fn main() {
         "c13" => c13::run(&args, &mut rep),
         "c14" => c14::run(&args, &mut rep),
         "c15" => c15::run(&args, &mut rep),
+        "extfut" => extfut::run(&args, &mut rep),
         _ => c19::run(&args, &mut rep),
     }));
     if r.is_err() {
